@@ -2,6 +2,7 @@ package e2
 
 import (
 	"fmt"
+	"strings"
 	"testing"
 	"time"
 
@@ -23,6 +24,7 @@ type c14path struct {
 	Extra       int   `json:"second_matching_subscriber_on_node"`     // 0 = none; subscribes last, so matching subscriptions alternate between nodes
 	Slow        []int `json:"slow_nodes"`                             // nodes whose log takes 2 s per append
 	Roam        bool  `json:"subscription_of_a_node1_session_re-created_through_node_2_rpc"`
+	StaleGone   int   `json:"matching_subscriber_left_node_but_publisher_not_told"` // 0 = none
 }
 
 var c14pairs = [][3]string{{"a/b", "a/+", "a/c"}, {"a", "a/#", "b/#"}, {"a/b/c", "#", "+"}, {"a/b", "+/b", "a/b/c"}}
@@ -65,25 +67,33 @@ func c14paths() []c14path {
 							if n == 3 && q == 2 && !vk.Thorough() {
 								continue
 							}
-							out = append(out, c14path{n, pn, hosts, un, pi, q, 0, 0, nil, false})
+							out = append(out, c14path{n, pn, hosts, un, pi, q, 0, 0, nil, false, 0})
+							if pi == 0 && q == 1 && len(un) == 0 {
+								// a remote matching subscriber unsubscribes, but that news has not reached the publisher yet
+								for _, r := range remotes {
+									if hosts[r-1]&1 != 0 {
+										out = append(out, c14path{n, pn, hosts, nil, pi, q, 0, 0, nil, false, r})
+									}
+								}
+							}
 							if pi == 0 && q == 1 && len(un) > 0 && len(un) < len(remotes) {
 								// the nodes that were unreachable are slow instead: everybody must still get the message
-								out = append(out, c14path{n, pn, hosts, nil, pi, q, 0, 0, un, false})
+								out = append(out, c14path{n, pn, hosts, nil, pi, q, 0, 0, un, false, 0})
 							}
 							if pi == 0 && q == 1 && len(un) == 0 && n == 2 && pn == 1 && hosts[0]&1 != 0 {
-								out = append(out, c14path{n, pn, hosts, nil, pi, q, 0, 0, nil, true})
+								out = append(out, c14path{n, pn, hosts, nil, pi, q, 0, 0, nil, true, 0})
 							}
 							if pi == 0 && q == 1 {
 								for ex := 1; ex <= n; ex++ {
 									if hosts[ex-1]&1 != 0 {
-										out = append(out, c14path{n, pn, hosts, un, pi, q, 0, ex, nil, false})
+										out = append(out, c14path{n, pn, hosts, un, pi, q, 0, ex, nil, false, 0})
 									}
 								}
 							}
 							if vk.Thorough() && pi == 0 && q == 1 {
 								for _, r := range remotes {
 									if hosts[r-1]&1 != 0 {
-										out = append(out, c14path{n, pn, hosts, un, pi, q, r, 0, nil, false})
+										out = append(out, c14path{n, pn, hosts, un, pi, q, r, 0, nil, false, 0})
 									}
 								}
 							}
@@ -115,6 +125,13 @@ func TestC14CrossNode(t *testing.T) {
 					matching bool
 				}
 				var subs []sub
+				// the publisher is there first and publishes the very topic once while nobody subscribes (a "no
+				// destination" result must not stick)
+				pub := w.NewClient("pub", p.Publisher, AckAll)
+				pub.Connect(ConnectOpts{ClientID: "pub", KeepAlive: 600})
+				w.Step()
+				pub.Publish(topic, "payload-0", 1, false, 6)
+				w.Step()
 				if p.Withhold != 0 {
 					// the publisher's node never hears of node Withhold's subscriptions
 					w.GossipHold = func(int) bool { return false }
@@ -162,9 +179,25 @@ func TestC14CrossNode(t *testing.T) {
 				for _, sn := range p.Slow {
 					w.SlowLog(sn, 2*time.Second)
 				}
-				pub := w.NewClient("pub", p.Publisher, AckAll)
-				pub.Connect(ConnectOpts{ClientID: "pub", KeepAlive: 600})
-				w.Step()
+				if p.StaleGone != 0 {
+					// the matching subscriber on that node unsubscribes; the publisher's node is not told (gossip in flight)
+					w.GossipHold = func(int) bool { return true }
+					for _, sb := range subs {
+						if sb.node == p.StaleGone && sb.matching {
+							sb.c.Unsubscribe(9, match)
+						}
+					}
+					w.Step()
+					// every node but the publisher's learns of it
+					for k := range w.Pending {
+						for _, n := range w.Nodes {
+							if int(n.ID) != p.Publisher {
+								w.Deliver(k, n.ID)
+							}
+						}
+					}
+					w.Step()
+				}
 				// destinations known to the publishing node at publish time
 				known := map[int]bool{}
 				for _, s := range w.Node(p.Publisher).DState.Subscriptions().ByPattern([]byte("_default/" + topic)) {
@@ -228,6 +261,9 @@ func TestC14CrossNode(t *testing.T) {
 					want := 0
 					if s.matching && known[s.node] && !(unreach[s.node] && s.node != p.Publisher) {
 						want = 1
+					}
+					if s.matching && s.node == p.StaleGone && !strings.HasSuffix(s.c.Name, "b") {
+						want = 0 // it unsubscribed; only the publisher's routing is stale
 					}
 					if got != want {
 						sig := "c14-subscriber-missed"
